@@ -374,9 +374,15 @@ class Canon:
         if k == "call":
             args = [s(a) for a in t[2]] + [f"{kk}={s(v)}" for kk, v in t[3]]
             nm = t[1].replace("builtins.", "").replace("numpy.", "np.")
+            from .interp import known_external
+            if ":" not in t[1] and not known_external(t[1]):
+                nm = "?ext:" + nm          # no summary: whatever mentions it is not decided
             return f"{nm}({', '.join(args)})"
         if k == "mcall":
             args = [s(a) for a in t[3]] + [f"{kk}={s(v)}" for kk, v in t[4]]
+            from .interp import KNOWN_METHODS
+            if t[2] not in KNOWN_METHODS:
+                return f"{s(t[1])}.?ext:{t[2]}({', '.join(args)})"
             return f"{s(t[1])}.{t[2]}({', '.join(args)})"
         if k == "exists":
             body = " & ".join(sorted(s(x) for x in t[2] if x[0] != "inloop"))
@@ -703,6 +709,12 @@ class Canon:
                     u, v = sorted([sa, repr(x)])
                     eqs.append(_atom(f"{u}=={v}", "==", u, v))
                 r = f_or(eqs)
+                return r if op == "in" else f_not(r)
+            if op in ("in", "notin") and b[0] == "mcall" and b[2] == "get" and len(b[3]) == 2 \
+                    and not b[4] and self.ip._empty_literal(b[3][1]):
+                # x in D.get(k, <empty>): the key is present and x is in its entry
+                sd, sk = self._show(b[1], ln), self._show(b[3][0], ln)
+                r = f_and([("atom", f"{sk} in {sd}"), ("atom", f"{sa} in {sd}[{sk}]")])
                 return r if op == "in" else f_not(r)
             if op == "in":
                 return ("atom", f"{sa} in {sb}")
